@@ -263,8 +263,15 @@ class JsonSchemaParser:
             else:
                 prop_schema = prop
             attname = prop_schema.get('x-var-name') or key
-            if not valid_attr(attname) or attname in attrs or hasattr(dict, attname):
-                attname = self.get_attname(attname, excludes=list(attrs))
+            if not valid_attr(attname) or attname in attrs or attname.startswith('_') \
+                    or hasattr(self.object_base_cls, attname):
+                # underscore-led attributes are private to the class parser (not fields), and the names of
+                # the base class (mapping methods like items / keys / update ...) cannot be attribute names
+                # ... nor can the name of another property ('a-b' next to 'a_b')
+                attname = self.get_attname(
+                    attname,
+                    excludes=list(attrs) + dir(self.object_base_cls) + [k for k in properties if k != key]
+                )
             alias = None
             if attname != key:
                 alias = key
